@@ -20,6 +20,7 @@ THEOREMS = {
     "C16": ["C16_rings", "C16_vertices", "C16_closed", "C16_orientation", "C16_idempotent", "C16_multipatch"],
     "C17": ["C17_requests", "C17_index_requests", "C17_record_requests"],
     "C08": ["C08_rejected_call", "C08_history", "C08_pairs", "C08_pairs_spec"],
+    "C20": ["C20_to_geo", "C20_polygon_grouping", "C20_back", "C20_from_geo", "C20_refusals", "C20_dims"],
     "C03": ["C03_record", "C03_decodes_conformant"],
     "C09": ["C09_finalize_irrelevant", "C09_files", "C09_finalize_complete", "C09_clean_finalize_silent"],
     "C10": ["C10_reject", "C10_erase"],
@@ -32,7 +33,9 @@ THEOREMS = {
 # theorems whose statement mentions the orientation test (Flocq binary64 arithmetic) inherit the four
 # classical-reals axioms of the standard library through Flocq's definitions
 FLOCQ = set(STDLIB_AXIOMS_ALLOWED)
-AXIOMS = {"C08_pairs": FLOCQ,
+AXIOMS = {"C20_to_geo": FLOCQ, "C20_polygon_grouping": FLOCQ, "C20_back": FLOCQ, "C20_from_geo": FLOCQ, "C20_refusals": FLOCQ,
+          "C20_dims": FLOCQ,
+          "C08_pairs": FLOCQ,
           "C17_requests": FLOCQ, "C17_index_requests": FLOCQ, "C17_record_requests": FLOCQ,
           "C16_rings": FLOCQ, "C16_vertices": FLOCQ, "C16_closed": FLOCQ, "C16_orientation": FLOCQ, "C16_idempotent": FLOCQ,
           "C16_multipatch": FLOCQ,
